@@ -58,6 +58,12 @@ claim("C18", "exploration",
   "deterministic simulation: seeded WASI scripts replayed across instances, engines and hostile child-process environments; trace equality + closure invariants",
   "DESIGN.md §5 C18")
 
+claim("C13", "fault_enumeration",
+  "Per tape-generated module: determinism of the cache entry across fresh runtimes; then EVERY crash point of the add operation is enumerated on an in-memory disk (before each syscall, inside each write after k bytes) under two persistence models - process death and power loss (data durable only up to the last fsync, unsynced tail dropped or zero-filled, each directory operation persisted or lost) - and a restarted runtime must find nothing or a byte-identical entry under the final name, compile, and execute correctly; every truncation length and foreign-version entries must be reported or recompiled, never executed; read faults; two concurrent writers under a seeded baton scheduler. Crash points are exhaustive per module; the module population is sampled.",
+  "Trusted: the sim-disk persistence model (conservative POSIX, not a specific file system), the go/ast instrumenter that substitutes package os in internal/filecache/file_cache.go and cache.go of a scratch copy, the plan model.",
+  "deterministic simulation: simulated disk (volatile/durable layers) with enumerated crash points, power-loss models, truncation sweep, read faults, baton-scheduled concurrent writers",
+  "DESIGN.md §5 C13")
+
 def main():
     m = dict(version=1,
       setup_cmd="./setup.sh",
